@@ -172,6 +172,7 @@ class Executor:
         self.opaque = {}          # type name -> zero-value factory (callable) for abstracted types
         self.stop_blocks = set()  # (fn name, block index): stop when the entry frame reaches it
         self.leak_mode = False
+        self.trace_branches = False
         self.log_reads = False
         self.max_steps = 5_000_000
         self.call_hook = None     # optional callable(ex, path, fname, args) for call logging
@@ -358,10 +359,10 @@ class Executor:
         if self.leak_mode and op in ("<<", ">>", "/", "%"):
             if op in ("<<", ">>"):
                 if not self.is_conc(y):
-                    path.leaks.append(("shift", self.site(path), y))
+                    path.leaks.append(("shift", self.site(path), y, len(path.pc)))
             else:
                 if not self.is_conc(x) or not self.is_conc(y):
-                    path.leaks.append(("div", self.site(path), (x, y)))
+                    path.leaks.append(("div", self.site(path), (x, y), len(path.pc)))
         return self.dom.binop(path, op, x, y, ty, xty, yty)
 
     def compare(self, path, op, x, y, ty):
@@ -726,8 +727,10 @@ class Executor:
         elif op == "If":
             c = V(ins["cond"])
             if self.leak_mode and not isinstance(c, bool):
-                path.leaks.append(("branch", self.site(path), c))
+                path.leaks.append(("branch", self.site(path), c, len(path.pc)))
             t = self.truth(path, c)
+            if self.trace_branches:
+                path.notes.append(("br", fr.fn["name"], fr.block, bool(t)))
             succs = fr.fn["blocks"][fr.block]["succs"]
             self.goto(fr, path, succs[0] if t else succs[1])
             return
@@ -836,7 +839,7 @@ class Executor:
     def bounds(self, path, i, n, msg):
         """bounds check 0 <= i < n (i, n ints or domain terms)"""
         if self.leak_mode and not self.is_conc(i):
-            path.leaks.append(("index", self.site(path), i))
+            path.leaks.append(("index", self.site(path), i, len(path.pc)))
         if type(i) is int and type(n) is int:
             if not (0 <= i < n):
                 raise GoPanic(msg)
@@ -869,7 +872,7 @@ class Executor:
         if self.leak_mode:
             for b in (lo, hi, mx):
                 if not self.is_conc(b):
-                    path.leaks.append(("slicebound", self.site(path), b))
+                    path.leaks.append(("slicebound", self.site(path), b, len(path.pc)))
         if all(type(z) is int for z in (lo, hi, mx, cap)):
             if not (0 <= lo <= hi <= mx <= cap):
                 raise GoPanic("slice bounds out of range")
